@@ -87,12 +87,16 @@ def run(tier, seed):
         raise vlib.Broken("WidenChain violated without CHAIN record:\n" + r.out[-2000:])
     ck.sample({"chain_history_first_steps": hs[0]["steps"][:14], "thresholds": hs[0]["steps"][-3].get("ts")})
     # (2) random histories: widening / narrowing steps
-    n2 = 120 if tier == "quick" else 2000
+    n2 = 120 if tier == "quick" else 1200
     hs2 = []
     for i in range(n2):
         h = hist.history(ck.rng, 10000 + i, length=10, profile="c05", params=ck.rng.choice(c03.PARAMS))
         hs2.append(h)
-    f2, k2, _ = domops.run_batch(ck, "widen", hs2, doms, box=box, univ=univ)
+    f2, k2 = [], []
+    for off in range(0, n2, 300):       # batches of 300 histories x all domains per TLC run
+        f_, k_, _ = domops.run_batch(ck, "widen%d" % off, hs2[off:off + 300], doms, box=box, univ=univ)
+        f2 += f_
+        k2 += k_
     domops.report(ck, fails + f2, knowns + k2, box, univ)
     # (3) termination of analysis runs on loop-heavy programs
     np_ = 80 if tier == "quick" else 1500
